@@ -11,10 +11,6 @@ Local Open Scope Z_scope.
 
 Definition pos_dict (d : mdict) : bool := forallb (fun p => pos_exp (snd p)) d.
 
-(* boolean form of ArithDict.dinv *)
-Definition dinv_b (d : adict) : bool :=
-  forallb (fun p => wf (fst p) && xok (snd p) && negb (num_is_zero (snd p))) d && pairwise_ne (map fst d).
-
 (* the operand of Add::coef_dict_add_term: every number it reads is exact and normalised, every term it
    inserts is well formed *)
 Definition cdat_term_ok (t : expr) : bool :=
